@@ -969,8 +969,9 @@ def gradient_node(g, r, gid, units=None, kind=None, with_stops=True, with_geom=T
     bb = units != "userSpaceOnUse"
     pct = r.random() < 0.4
 
-    def L(v):  # v in 0..1 of the reference box
-        if r.random() < 0.04:
+    def L(v, tiny_ok=True):  # v in 0..1 of the reference box
+        # (never for radii: a radius of 3e-6 with a reflect / repeat spread is a colour field no comparison can judge)
+        if tiny_ok and r.random() < 0.04:
             # a tiny non-zero coordinate: serialised in exponent form by the conversion
             g.f["grad_tiny_coordinate"] += 1
             return r.choice(("0.00002", "2e-05", "0.00005", "3E-6"))
@@ -994,7 +995,7 @@ def gradient_node(g, r, gid, units=None, kind=None, with_stops=True, with_geom=T
             else:
                 cx = cy = 0.5
             if r.random() < 0.8:
-                n.attrs["r"] = L(rr)
+                n.attrs["r"] = L(rr, tiny_ok=False)
             else:
                 rr = 0.5
             if r.random() < 0.4:
@@ -1005,7 +1006,7 @@ def gradient_node(g, r, gid, units=None, kind=None, with_stops=True, with_geom=T
                 n.attrs["fy"] = L(cy + d * math.sin(a))
                 g.f["grad_focal"] += 1
             if r.random() < 0.2:
-                n.attrs["fr"] = L(r.uniform(0.02, 0.2) * rr)
+                n.attrs["fr"] = L(r.uniform(0.02, 0.2) * rr, tiny_ok=False)
                 g.f["grad_fr"] += 1
     if r.random() < 0.5:
         n.attrs["gradientTransform"] = _grad_transform(g, r)
